@@ -116,6 +116,61 @@ SUBS = [
 ]
 
 
+# ----------------------------------------------------------------------------- very long trajectories (sampled lags)
+def run_long(case):
+    """10^4 - 10^5 frames: the MSD at ~60 lags (first, last, powers of two, their neighbours and case-chosen ones) vs the direct definition"""
+    T, N = case['frames'], case['atoms']
+    M = np.array(case['lattice']['matrix'], float)
+    t_ = np.arange(T, dtype=float).reshape(T, 1, 1)
+    a_ = np.arange(1, N + 1, dtype=float).reshape(1, N, 1)
+    v = np.array(case['velocity'], float).reshape(1, 1, 3)
+    amp = np.array(case['amplitude'], float).reshape(1, 1, 3)
+    # drift + oscillation + one hop: a pure function of the case; per component |step| <= 0.19 + 2 * 0.05 + 0.15 < 1/2
+    path = np.array(case['x0'], float).reshape(1, N, 3) + t_ * v * a_ / N + amp * np.sin(t_ * a_ * case['omega']) + (t_ >= case['hop_at']) * 0.15
+    coords = path - np.floor(path)
+    t = cases.trajectory(coords if case['form'] == 'wrapped' else path, ['Li'] * N, M, 2e-15, 300.0)
+    got = np.array(gcall(t.mean_squared_displacement))
+    if got.shape != (N, T):
+        raise Violation('msd-shape', f'{got.shape} vs (atoms, lags)={(N, T)}')
+    cart = (path - path[:1]) @ M
+    lags = {0, 1, 2, 3, T - 1, T - 2, T // 2, T // 2 + 1, T // 3}
+    k = 1
+    while k < T:
+        lags |= {k - 1, k, k + 1}
+        k *= 2
+    lags |= {int(x) % T for x in case['lags']}
+    scale = max(float(np.sum(cart * cart, axis=-1).max()), float(np.sum(M * M, axis=1).max()))
+    for tau in sorted(x for x in lags if 0 <= x < T):
+        d = cart[tau:] - cart[:T - tau]
+        want = np.mean(np.sum(d * d, axis=-1), axis=0)
+        err = np.abs(got[:, tau] - want)
+        if np.any(err > 1e-8 * scale + 1e-8 * np.abs(want)):
+            i = int(np.argmax(err))
+            raise Violation('msd-equals-definition', f'{T} frames, atom {i} lag {tau}: reported {got[i, tau]!r}, time-origin average of |r(t+tau)-r(t)|^2 is {want[i]!r} (cell={case["lattice"]["family"]})')
+    dist = np.array(gcall(t.distances_from_base_position))
+    wd = np.linalg.norm(cart, axis=-1).T
+    if dist.shape != wd.shape or np.abs(dist - wd).max() > 1e-8 * max(1.0, wd.max()):
+        raise Violation('distance-equals-cartesian-length', f'{T} frames: max deviation {np.abs(dist - wd).max() if dist.shape == wd.shape else dist.shape}')
+    d3 = float(gcall(gcall(t.metrics).tracer_diffusivity, dimensions=3))
+    w3 = float(np.mean(np.sum(cart[-1] ** 2, axis=-1)) * oracle.ANGSTROM**2 / (6 * T * 2e-15))
+    if abs(d3 - w3) > 1e-8 * abs(w3) + 1e-8 * scale * oracle.ANGSTROM**2 / (6 * T * 2e-15):
+        raise Violation('tracer-diffusivity-equals-definition', f'{T} frames: reported {d3!r} vs {w3!r}')
+    return {'nontrivial': True, 'labels': [case['lattice']['family'], f'frames>={10 ** int(np.log10(T))}', 'frames>65535' if T > 65535 else 'frames<=65535', 'form-' + case['form']]}
+
+
+@st.composite
+def long_cases(draw, tier):
+    big = tier == 'thorough'
+    T = draw(st.sampled_from([70001, 33000, 12000, 131072] + ([262145, 500000] if big else [])))
+    N = draw(st.sampled_from([2, 1, 3]))
+    return {'lattice': draw(gen.lattices()), 'frames': T, 'atoms': N,
+            'x0': [[draw(st.sampled_from([0.0, 0.5, 0.97, 0.25])) for _ in range(3)] for _ in range(N)],
+            'velocity': [draw(st.sampled_from([0.11, -0.07, 0.0, 0.0003, -0.19])) for _ in range(3)],
+            'amplitude': [draw(st.sampled_from([0.05, 0.0, 0.02])) for _ in range(3)],
+            'omega': draw(st.sampled_from([0.7, 0.013, 2.9])), 'hop_at': draw(st.integers(1, T - 1)),
+            'lags': draw(st.lists(st.integers(0, 10**6), min_size=10, max_size=30)), 'form': draw(st.sampled_from(['wrapped', 'unwrapped']))}
+
+
 # ----------------------------------------------------------------------------- every frame count
 PATTERNS = ['ballistic', 'zigzag', 'single-hop', 'late-hop', 'stationary-then-run']
 
@@ -167,3 +222,7 @@ SUBS.append(
     Sub(name='enum-frame-counts', kind='enum', run=run_frames, size=EF.size, case_at=EF.case_at, exhaustive=True,
         rule='complete enumeration: every trajectory length 2..260 (quick) / 2..1100 (thorough) frames x 5 deterministic motion patterns (ballistic, zigzag, single hop at the first / last step, rest-then-run) of two atoms that cross cell faces, cell family/orientation/input form cycled with the length; MSD at every lag vs the direct definition, distances, tracer diffusivity',
         shards={'quick': 16, 'thorough': 16}))
+SUBS.append(
+    Sub(name='long-trajectories', kind='hyp', run=run_long, strategy=long_cases,
+        rule='12 000 - 131 072 (500 000) frames x 1-3 atoms in all lattices (drift + oscillation + one late hop, many face crossings): MSD at ~60 lags (0, 1, 2, 3, T-2, T-1, T/2, T/3, every power of two and its neighbours, 10-30 generated lags) vs the direct definition, distances and tracer diffusivity (size-dependent code paths, FFT padding, accumulated round-off)',
+        n={'quick': 2, 'thorough': 6}, shards={'quick': 6, 'thorough': 16}))
